@@ -74,6 +74,17 @@ pub fn judge_c03(rt: &tokio::runtime::Runtime, t: &Torrent, dir: &Path) -> Resul
             return Err(("C03:piece-length-sum".into(), format!("piece lengths sum to {} != total {}", sum, t.total()), geometry));
         }
     }
+    // in a third of the cases the output files exist already (left from an earlier run), longer
+    // than what is to be written and with other bytes: the result must not depend on that
+    if crate::util::hash64(&t.bytes) % 3 == 0 {
+        for (k, (p, data)) in t.expected_files().iter().enumerate() {
+            let full = dir.join(p);
+            if let Some(parent) = full.parent() { let _ = std::fs::create_dir_all(parent); }
+            let mut old = vec![0xEEu8; data.len() + 1 + (k % 7)];
+            for (j, b) in old.iter_mut().enumerate() { *b ^= j as u8; }
+            let _ = std::fs::write(&full, &old);
+        }
+    }
     let before: Vec<PathBuf> = listing(dir).keys().cloned().collect();
     match run_extractor(rt, t, dir) {
         Err(p) => return Err((format!("C03:panic:{}", panic_site(&p)), p, geometry)),
